@@ -129,11 +129,12 @@ impl ParseData for FromMetaOptions {
                     );
                 }
 
+                // `word = false` does not make a variant the word variant, and neither does
+                // `word` on a skipped variant: that variant is never produced.
                 let word_variants: Vec<_> = data
                     .iter()
+                    .filter(|variant| variant.is_word_variant())
                     .filter_map(|variant| variant.word.as_ref())
-                    // `word = false` does not make the variant the word variant
-                    .filter(|word| ***word)
                     .collect();
 
                 if !word_variants.is_empty() {
